@@ -43,6 +43,11 @@ CHECKS = {
    text="Concurrency facet: generated scenario functions mixing nested defers, recover at different depths (direct, indirect, deferred function itself), re-panic, replaced panics, named results modified by deferred closures, runtime.Goexit (also below frames with deferred calls), panics with int/string/error/run-time-error values and yield atoms everywhere (including inside deferred functions) run each in its own goroutine, one after the other (S) and all concurrently (M), under seeded suspension tapes in the simulated event loop; the natively built program is the reference: native(S)==gopherjs(S, any tape) and every scenario's log in gopherjs(M, any tape) equals its native log. Which operand values raise which run-time error is a pure function of the program and is not decided.",
    note="Trusted: host Go toolchain as reference, generator subset rules (Appendix C), simulator. A native-vs-GopherJS difference whose minimised program contains no defer/panic/recover/Goexit construct is counted as out-of-scope, not raised.",
    technique="deterministic simulation (seeded interleavings of goroutines suspended inside panics and deferred calls) with the native toolchain as reference model"),
+ "C10": dict(
+   category="exploration", design_ref="DESIGN.md §4 C10",
+   text="Ordering and suspension facet: generated import DAGs (diamonds, up to 6 packages, up to 3 files each) with package-level variables depending on each other across files directly and through functions, several init functions per file, initialisers and init functions containing yield atoms, goroutines started from initialisers that hand results back over channels; direct and resumable builds by the tree's compiler run under seeded suspension tapes. The trace must be identical for every tape, every package's initialisation must be one contiguous block after the blocks of all packages it imports with main last, the order in which a package's files are presented must be a function of their names alone (cross-checked over all programs of the run), and each package's block must equal the natively built program's once the native copy's files are renamed into the observed order. Build-time rejection of invalid go:linkname uses is a compile-time fact and is not decided.",
+   note="Trusted: host Go toolchain as reference for variable and init order inside a package, generator rules, simulator. The relative order of independent packages is not constrained (the property demands only 'after its imports').",
+   technique="deterministic simulation (seeded suspensions inside initialisers and init functions) with the native toolchain as reference"),
 }
 
 def main():
